@@ -7,10 +7,17 @@
             "queries":[ {"q":"cc","req":[str]|null,"ti":[int]|null,"mag":bool}
                       | {"q":"net","req":[str]|null,"ti":[int]|null}
                       | {"q":"nema","ids":[str]} | {"q":"met","thr":bits}
-                      | {"q":"cost","prices":[bits]} | {"q":"dc","dc":bits} ]}
+                      | {"q":"nema","ids":[str],"ut":str,"type":str|null}      (keywords of current_unbalance)
+                      | {"q":"cost","prices_arg":[bits]|null,"signals":bool,"prices_sig":[bits]|null}
+                      | {"q":"dc","dc_arg":bits|null,"signals":bool,"dc_sig":bits|null} ],
+            "sim": null | <request of AcnModel/WireSim.lean> (+ "resume": <sched>)}
+  With "sim": the scenario is ALSO run through the full simulator model (`Sim.run`), and every analysis value is
+  evaluated a second time on the MODEL'S OWN trajectory (`AcnModel/AnalysisSim.lean`: rates, voltages, EV history,
+  iteration, period of the model's final state; the constraint matrix and angles of the request) — answer under "sim".
 -/
-import AcnModel.Wire
-import AcnModel.Analysis
+import AcnModel.WireSim
+import AcnModel.AnalysisSim
+import AcnProofs.Lemmas.LedgerExec
 open Lean Acn Acn.Wire Acn.Analysis
 
 def jRes {α} (f : α → Json) : Except Err α → Json
@@ -74,7 +81,9 @@ def answer (r : SimRes) (q : Json) : Except String Json := do
     pure (Json.mkObj [("res", jRes (jList (jList jPair)) res)])
   else if kind == "nema" then
     let ids ← (do let a ← getArr q "ids"; a.mapM (·.getStr?))
-    let res := nemaUnbalance sqrtF r.names r.M r.c r.s r.R r.T ids
+    let ut ← (do let o ← getOpt q "ut" (·.getStr?); pure (o.getD "NEMA"))
+    let typ ← getOpt q "type" (·.getStr?)
+    let res := currentUnbalance sqrtF r.names r.M r.c r.s r.R r.T ids ut typ
     -- statement level: three named magnitudes per period
     let spec : Option (List Float) := match ids with
       | [a, b, cc] =>
@@ -87,14 +96,79 @@ def answer (r : SimRes) (q : Json) : Except String Json := do
   else if kind == "met" then
     pure (Json.mkObj [("res", Json.null)])
   else if kind == "cost" then
-    let prices ← getFs q "prices"
+    let parg ← getOpt q "prices_arg" asFs
+    let psig ← getOpt q "prices_sig" asFs
+    let isDict ← getBool q "signals"
     let period ← getF q "period"
-    pure (Json.mkObj [("res", jRes jF (energyCost prices r.T r.V r.R period)),
-                      ("spec", jF (specEnergyCost prices r.T r.V r.R period))])
+    match pickTariff parg (if isDict then some psig else none) with
+    | .error e => pure (Json.mkObj [("res", jRes jF (Except.error e))])
+    | .ok prices =>
+      pure (Json.mkObj [("res", jRes jF (energyCost prices r.T r.V r.R period)),
+                        ("spec", jF (specEnergyCost prices r.T r.V r.R period))])
   else if kind == "dc" then
-    let dc ← getF q "dc"
-    pure (Json.mkObj [("res", jRes jF (demandCharge dc r.T r.V r.R))])
+    let darg ← getOpt q "dc_arg" asF
+    let dsig ← getOpt q "dc_sig" asF
+    let isDict ← getBool q "signals"
+    match pickTariff darg (if isDict then some dsig else none) with
+    | .error e => pure (Json.mkObj [("res", jRes jF (Except.error e))])
+    | .ok dc => pure (Json.mkObj [("res", jRes jF (demandCharge dc r.T r.V r.R))])
   else throw s!"unknown query {kind}"
+
+/-- every analysis value of one simulation result -/
+def analyse (r : SimRes) (evs : List (Ev Float)) (start period : Float) (iters : Nat) (thrs : List Float)
+    (qs : List Json) : Except String (List (String × Json)) := do
+  let answers ← qs.mapM (fun q => do
+    let kind ← getStr q "q"
+    if kind == "cost" then answer r (q.setObjVal! "period" (jF period)) else answer r q)
+  pure [
+    ("agg_current", jFs (aggregateCurrent r.T r.R)),
+    ("agg_power", jFs (aggregatePower r.T r.V r.R)),
+    ("spec_agg_current", jFs ((List.range r.T).map (specAggCurrent r.R))),
+    ("spec_agg_power", jFs ((List.range r.T).map (specAggPower r.V r.R))),
+    ("tot_req", jF (totalRequested evs)),
+    ("tot_del", jF (totalDelivered evs)),
+    ("prop", jRes jF (proportionDelivered evs)),
+    ("met", jList (fun thr => jRes jF (demandsMet evs thr)) thrs),
+    ("datetimes", jFs (datetimes start period iters)),
+    ("answers", Json.arr answers.toArray)]
+
+open Acn.Sim Acn.AnalysisSim Acn.LedgerX in
+/-- the scenario through the full simulator model, the analysis on the model's own trajectory -/
+def simPart (net : SimRes) (start : Float) (thrs : List Float) (qs : List Json) (sj : Json) :
+    Except String Json := do
+  let cfg ← parseSimCfg sj
+  let sched ← parseSched (← sj.getObjVal? "sched")
+  let fuel := EventCore.fuelFor cfg.core
+  let r1 := Sim.run cfg sched fuel (Sim.init cfg)
+  let resume ← getOpt sj "resume" parseSched
+  let (rf, first) : (Sim.State Float × Option EventCore.Err) × Option (Sim.State Float × Option EventCore.Err) :=
+    match r1.2, resume with
+    | some _, some sch2 => (Sim.run cfg sch2 fuel r1.1, some r1)
+    | _, _ => (r1, none)
+  let s := rf.1
+  let res : SimRes := { net with T := simT s, R := simR s, V := simV cfg }
+  let ana ← analyse res (histEvs s) start cfg.period s.core.iter thrs qs
+  let n := cfg.stations.length
+  let zeroF : Float := 0
+  let sumDel := s.evs.foldl (fun acc e => acc + e.delivered) zeroF
+  let sumDel0 := cfg.evs.foldl (fun acc e => acc + e.delivered) zeroF
+  let unfinished (x : Sim.State Float × Option EventCore.Err) : Json :=
+    Json.mkObj [("err", jOpt (fun e => jS e.name) x.2), ("iter", jN x.1.core.iter),
+                ("queue_empty", jB x.1.core.pending.isEmpty), ("warns", jB (warnsUnfinished x.1)),
+                ("datetimes", jFs (datetimesSim start cfg x.1)),
+                ("agg_current", jFs (aggregateCurrentSim x.1)), ("peak", jF x.1.peak)]
+  pure (Json.mkObj [
+    ("err", jOpt (fun e => jS e.name) rf.2), ("iter", jN s.core.iter),
+    ("queue_empty", jB s.core.pending.isEmpty), ("warns", jB (warnsUnfinished s)),
+    ("peak", jF s.peak), ("width", jN s.rates.width), ("rates", jFss s.rates.rows),
+    ("pilots", jFss s.pilots.rows),
+    ("ev_history", jList jS s.core.evHist),
+    ("evs", jList (fun (e : Ev Float) => Json.arr #[jF e.requested, jF e.delivered]) (histEvs s)),
+    ("ledger", Json.mkObj [("peak_spec", jF (peakX s.rates n s.core.iter)),
+                           ("sum_delivered", jF (sumDel - sumDel0)),
+                           ("integral", jF (integralX cfg s.rates s.core.iter))]),
+    ("first", jOpt unfinished first),
+    ("analysis", Json.mkObj ana)])
 
 def handle (j : Json) : Except String Json := do
   let r : SimRes := {
@@ -111,19 +185,11 @@ def handle (j : Json) : Except String Json := do
   let iters ← getNat j "iters"
   let thrs ← getFs j "thresholds"
   let qs ← getArr j "queries"
-  let answers ← qs.mapM (fun q => do
-    let kind ← getStr q "q"
-    if kind == "cost" then answer r (q.setObjVal! "period" (jF period)) else answer r q)
-  pure (Json.mkObj [
-    ("agg_current", jFs (aggregateCurrent r.T r.R)),
-    ("agg_power", jFs (aggregatePower r.T r.V r.R)),
-    ("spec_agg_current", jFs ((List.range r.T).map (specAggCurrent r.R))),
-    ("spec_agg_power", jFs ((List.range r.T).map (specAggPower r.V r.R))),
-    ("tot_req", jF (totalRequested evs)),
-    ("tot_del", jF (totalDelivered evs)),
-    ("prop", jRes jF (proportionDelivered evs)),
-    ("met", jList (fun thr => jRes jF (demandsMet evs thr)) thrs),
-    ("datetimes", jFs (datetimes start period iters)),
-    ("answers", Json.arr answers.toArray)])
+  let top ← analyse r evs start period iters thrs qs
+  let simJ ← match j.getObjVal? "sim" with
+    | .ok Json.null => pure Json.null
+    | .ok sj => simPart r start thrs qs sj
+    | .error _ => pure Json.null
+  pure (Json.mkObj (top ++ [("sim", simJ)]))
 
 def main : IO Unit := runDriver handle
